@@ -1186,11 +1186,19 @@ lysp_load_submodules(struct lysp_ctx *pctx, struct lysp_module *pmod, struct ly_
         if (pmod->is_submod) {
             /* try to find the submodule in the main module or its submodules */
             ret = lysp_main_pmod_get_submodule(pctx, inc);
+            if (ret == LY_SUCCESS) {
+                /* found, go on with the next include */
+                continue;
+            }
             LY_CHECK_RET(ret != LY_ENOT, ret);
         }
 
         /* try to use currently parsed submodule */
         r = lysp_parsed_mods_get_submodule(pctx, inc);
+        if (r == LY_SUCCESS) {
+            /* found, go on with the next include */
+            continue;
+        }
         LY_CHECK_RET(r != LY_ENOT, r);
 
         /* submodule not present in the main module, get the input data and parse it */
